@@ -125,7 +125,15 @@ func (op Op) String() string {
 	if op.Raw != nil {
 		return fmt.Sprintf("%s s%d RAW %s", op.Kind, op.Scope, op.RawDesc)
 	}
-	return fmt.Sprintf("%s s%d %s", op.Kind, op.Scope, FuncText(op.Fn))
+	txt := fmt.Sprintf("%s s%d %s", op.Kind, op.Scope, FuncText(op.Fn))
+	if len(op.Nested) > 0 {
+		var ns []string
+		for _, n := range op.Nested {
+			ns = append(ns, n.String())
+		}
+		txt += " body{" + strings.Join(ns, "; ") + "}"
+	}
+	return txt
 }
 
 // HistoryText renders a history with verdicts, one op per line.
